@@ -1542,6 +1542,10 @@ class BaseSpaceImpl(*_base_space_impl_base):
         return _to_frame_inner(self.cells, args)
 
     def on_delete(self):
+        if not self.is_dynamic():
+            # Delete the ItemSpaces built from this space and its own
+            self.clear_subs_rootitems()
+            self.del_all_itemspaces()
         for cells in self.cells.values():
             cells.clear_all_values(clear_input=True)
             if not cells.is_cached:
